@@ -2,7 +2,7 @@
 ; requires base.smt2
 ; usetype github.com/wokdav/gopki/generator/config.CertificateContent
 (declare-fun jsonBytes (Deep) Bytes)
-(declare-fun digest (Int Bytes) Bytes)      ; digest(hash id, data); hash ids: 1 SHA-1, 2 SHA-256, 3 SHA-384, 4 SHA-512
+(declare-fun digest (Int Bytes) Bytes)      ; digest(hash id, data); hash ids are crypto.Hash values: 3 SHA-1, 5 SHA-256, 6 SHA-384, 7 SHA-512
 (declare-fun hashAlgOf (Any) Int)
 ; the statement: alias, profile name and run-relative times do not enter the hash; everything else does
 (define-fun blankValidity ((v S_config_CertificateValidity)) S_config_CertificateValidity
